@@ -10,7 +10,7 @@ import (
 	"strings"
 )
 
-type simOut struct {
+type c15SimOut struct {
 	tx, idx, asset int
 	amount         *big.Int
 	key            int
@@ -18,11 +18,11 @@ type simOut struct {
 	taken          bool // an input of some built transaction
 }
 
-type simTx struct {
+type c15SimTx struct {
 	id, asset int
 	kind      string // deposit transfer submit claim mint
-	ins       []*simOut
-	outs      []*simOut
+	ins       []*c15SimOut
+	outs      []*c15SimOut
 	amount    *big.Int // deposit / mint amount
 	burn      *big.Int // submit amount
 	info      [2]int
@@ -31,74 +31,74 @@ type simTx struct {
 	final     bool
 }
 
-type sim struct {
-	r      *Rand
-	lines  []string
-	txs    map[int]*simTx
-	order  []int
-	total  map[int]*big.Int
-	info   map[int]*[2]int
-	uniq   map[[2]int]bool
+type c15Sim struct {
+	r                                                                           *Rand
+	lines                                                                       []string
+	txs                                                                         map[int]*c15SimTx
+	order                                                                       []int
+	total                                                                       map[int]*big.Int
+	info                                                                        map[int]*[2]int
+	uniq                                                                        map[[2]int]bool
 	nextTx, nextSnap, nextTopo, nextTs, nextSeed, nextDep, nextNonce, nextBatch int
-	usedTopo []int
+	usedTopo                                                                    []int
 }
 
-var lgUnit = big.NewInt(100000000)
+var c15Unit = big.NewInt(100000000)
 
-func lgUnits(n int64) *big.Int { return new(big.Int).Mul(big.NewInt(n), lgUnit) }
+func c15Units(n int64) *big.Int { return new(big.Int).Mul(big.NewInt(n), c15Unit) }
 
-func (s *sim) emit(format string, a ...any) { s.lines = append(s.lines, fmt.Sprintf(format, a...)) }
+func (s *c15Sim) emit(format string, a ...any) { s.lines = append(s.lines, fmt.Sprintf(format, a...)) }
 
-func lgInfo(a int) [2]int {
+func c15Info(a int) [2]int {
 	if a == 1 {
 		return [2]int{3, 1}
 	}
 	return [2]int{a, 100 + a}
 }
 
-func (s *sim) header() {
+func (s *c15Sim) header() {
 	s.emit("reset")
-	s.emit("config 1 %s", lgClaimFee())
+	s.emit("config 1 %s", c15ClaimFee())
 	for a := 1; a <= 6; a++ {
-		s.emit("asset %d %s", a, lgCap(a))
+		s.emit("asset %d %s", a, c15Cap(a))
 		s.total[a] = new(big.Int)
 	}
 	s.emit("ginfo 1 3 1")
-	xin := lgInfo(1)
+	xin := c15Info(1)
 	s.info[1] = &xin
-	for i := 1; i <= lgNodes; i++ {
+	for i := 1; i <= c15Nodes; i++ {
 		var ks []string
-		for j := 1; j <= lgNodes; j++ {
-			ks = append(ks, fmt.Sprint(lgGenesisKey+100*i+j))
+		for j := 1; j <= c15Nodes; j++ {
+			ks = append(ks, fmt.Sprint(c15GenesisKey+100*i+j))
 		}
-		s.emit("tx %d 1 1 1 0 g a:%s:%s -", i, lgUnits(13439), strings.Join(ks, "+"))
+		s.emit("tx %d 1 1 1 0 g a:%s:%s -", i, c15Units(13439), strings.Join(ks, "+"))
 		s.emit("gsnap %d %d 0 0 %d 0 %d", i, i, i-1, i)
-		s.total[1].Add(s.total[1], lgUnits(13439))
+		s.total[1].Add(s.total[1], c15Units(13439))
 	}
-	s.emit("tx 8 1 1 1 0 g u:%s:%d -", lgUnits(100*lgNodes), lgGenesisKey+801)
-	s.emit("gsnap 8 1 0 1 %d 0 8", lgNodes)
-	s.total[1].Add(s.total[1], lgUnits(100*lgNodes))
+	s.emit("tx 8 1 1 1 0 g u:%s:%d -", c15Units(100*c15Nodes), c15GenesisKey+801)
+	s.emit("gsnap 8 1 0 1 %d 0 8", c15Nodes)
+	s.total[1].Add(s.total[1], c15Units(100*c15Nodes))
 	s.emit("opaque 1")
 	s.emit("dump")
 	s.emit("supply")
-	s.nextTx, s.nextSnap, s.nextTopo, s.nextTs = 100, 100, lgNodes+1, 10
+	s.nextTx, s.nextSnap, s.nextTopo, s.nextTs = 100, 100, c15Nodes+1, 10
 	s.nextSeed, s.nextDep, s.nextNonce, s.nextBatch = 1, 1, 1, 1
 }
 
-func (s *sim) key(acct, idx int) int {
+func (s *c15Sim) key(acct, idx int) int {
 	k := s.nextSeed*10000 + acct*100 + idx
 	return k
 }
 
-func (s *sim) newTx(kind string, asset int) *simTx {
-	t := &simTx{id: s.nextTx, asset: asset, kind: kind, good: true}
+func (s *c15Sim) newTx(kind string, asset int) *c15SimTx {
+	t := &c15SimTx{id: s.nextTx, asset: asset, kind: kind, good: true}
 	s.nextTx++
 	s.txs[t.id] = t
 	s.order = append(s.order, t.id)
 	return t
 }
 
-func (s *sim) outLine(o *simOut, typ string) string {
+func (s *c15Sim) outLine(o *c15SimOut, typ string) string {
 	if typ == "w" || typ == "c" {
 		return fmt.Sprintf("%s:%s:-", typ, o.amount)
 	}
@@ -106,7 +106,7 @@ func (s *sim) outLine(o *simOut, typ string) string {
 }
 
 // declare + (validate) + lock + put
-func (s *sim) admit(t *simTx, validate bool) {
+func (s *c15Sim) admit(t *c15SimTx, validate bool) {
 	if validate {
 		s.emit("validate %d 0", t.id)
 	}
@@ -115,7 +115,7 @@ func (s *sim) admit(t *simTx, validate bool) {
 	t.put = true
 }
 
-type depOpt struct {
+type c15DepOpt struct {
 	info     *[2]int
 	key      int // reuse this ghost key (collision)
 	outType  string
@@ -125,10 +125,10 @@ type depOpt struct {
 	validate bool
 }
 
-func (s *sim) deposit(asset int, amount *big.Int, o depOpt) *simTx {
+func (s *c15Sim) deposit(asset int, amount *big.Int, o c15DepOpt) *c15SimTx {
 	t := s.newTx("deposit", asset)
 	t.amount = amount
-	t.info = lgInfo(asset)
+	t.info = c15Info(asset)
 	if o.info != nil {
 		t.info = *o.info
 	}
@@ -146,8 +146,8 @@ func (s *sim) deposit(asset int, amount *big.Int, o depOpt) *simTx {
 	if o.outType != "" {
 		typ = o.outType
 	}
-	out := &simOut{tx: t.id, idx: 0, asset: asset, amount: amount, key: key}
-	t.outs = []*simOut{out}
+	out := &c15SimOut{tx: t.id, idx: 0, asset: asset, amount: amount, key: key}
+	t.outs = []*c15SimOut{out}
 	cust := 1
 	if o.custBad {
 		cust = 0
@@ -160,10 +160,10 @@ func (s *sim) deposit(asset int, amount *big.Int, o depOpt) *simTx {
 	return t
 }
 
-func (s *sim) nonce() int { s.nextNonce++; return s.nextNonce }
+func (s *c15Sim) nonce() int { s.nextNonce++; return s.nextNonce }
 
-func (s *sim) liveOuts(asset int) []*simOut {
-	var res []*simOut
+func (s *c15Sim) liveOuts(asset int) []*c15SimOut {
+	var res []*c15SimOut
 	for _, id := range s.order {
 		for _, o := range s.txs[id].outs {
 			if o.live && !o.taken && (asset == 0 || o.asset == asset) && o.key != 0 {
@@ -174,7 +174,7 @@ func (s *sim) liveOuts(asset int) []*simOut {
 	return res
 }
 
-func (s *sim) split(total *big.Int, n int) []*big.Int {
+func (s *c15Sim) split(total *big.Int, n int) []*big.Int {
 	var parts []*big.Int
 	rest := new(big.Int).Set(total)
 	for i := 0; i < n-1; i++ {
@@ -193,7 +193,7 @@ func (s *sim) split(total *big.Int, n int) []*big.Int {
 
 // spend 1..2 live outputs of one asset into script outputs (kind transfer), a withdrawal submit
 // plus change (kind submit) or a withdrawal claim plus change (kind claim, XIN)
-func (s *sim) spend(kind string, sigok bool, skew int64, ref int, validate bool) *simTx {
+func (s *c15Sim) spend(kind string, sigok bool, skew int64, ref int, validate bool) *c15SimTx {
 	asset := 0
 	if kind == "claim" {
 		asset = 1
@@ -203,7 +203,7 @@ func (s *sim) spend(kind string, sigok bool, skew int64, ref int, validate bool)
 		return nil
 	}
 	first := Pick(s.r, cands)
-	ins := []*simOut{first}
+	ins := []*c15SimOut{first}
 	if s.r.Chance(1, 3) {
 		for _, o := range cands {
 			if o != first && o.asset == first.asset {
@@ -216,7 +216,7 @@ func (s *sim) spend(kind string, sigok bool, skew int64, ref int, validate bool)
 	for _, o := range ins {
 		sum.Add(sum, o.amount)
 	}
-	fee := lgClaimFee()
+	fee := c15ClaimFee()
 	if kind == "claim" && sum.Cmp(fee) <= 0 {
 		return nil
 	}
@@ -237,7 +237,7 @@ func (s *sim) spend(kind string, sigok bool, skew int64, ref int, validate bool)
 	}
 	acct := 1 + s.r.Intn(4)
 	for i, p := range parts {
-		o := &simOut{tx: t.id, idx: i, asset: t.asset, amount: p, key: s.key(acct, i)}
+		o := &c15SimOut{tx: t.id, idx: i, asset: t.asset, amount: p, key: s.key(acct, i)}
 		typ := "s"
 		if i == 0 && kind == "submit" {
 			typ, o.key = "w", 0
@@ -269,12 +269,12 @@ func (s *sim) spend(kind string, sigok bool, skew int64, ref int, validate bool)
 	return t
 }
 
-func (s *sim) mint(amount *big.Int) *simTx {
+func (s *c15Sim) mint(amount *big.Int) *c15SimTx {
 	t := s.newTx("mint", 1)
 	t.amount = amount
-	out := &simOut{tx: t.id, idx: 0, asset: 1, amount: amount, key: s.key(1+s.r.Intn(4), 0)}
+	out := &c15SimOut{tx: t.id, idx: 0, asset: 1, amount: amount, key: s.key(1+s.r.Intn(4), 0)}
 	s.nextSeed++
-	t.outs = []*simOut{out}
+	t.outs = []*c15SimOut{out}
 	s.emit("tx %d 1 1 1 %d m:%d:%s %s -", t.id, s.nonce(), s.nextBatch, amount, s.outLine(out, "s"))
 	s.nextBatch++
 	s.admit(t, true)
@@ -282,7 +282,7 @@ func (s *sim) mint(amount *big.Int) *simTx {
 }
 
 // write a snapshot of the given members; `expect` is the simulation's guess
-func (s *sim) snapshot(members []int, node int, expect bool, topo int) {
+func (s *c15Sim) snapshot(members []int, node int, expect bool, topo int) {
 	if len(members) == 0 {
 		return
 	}
@@ -300,7 +300,7 @@ func (s *sim) snapshot(members []int, node int, expect bool, topo int) {
 	sid := s.nextSnap
 	s.nextSnap++
 	s.nextTs++
-	s.emit("snap %d %d 1 %d %d %d %s", sid, node, s.nextTs, topo, s.r.Intn(lgNodes+1), strings.Join(ids, ","))
+	s.emit("snap %d %d 1 %d %d %d %s", sid, node, s.nextTs, topo, s.r.Intn(c15Nodes+1), strings.Join(ids, ","))
 	s.emit("dump")
 	s.emit("supply")
 	if !expect {
@@ -331,7 +331,7 @@ func (s *sim) snapshot(members []int, node int, expect bool, topo int) {
 }
 
 // pending members the simulation believes can be finalized together
-func (s *sim) pendingGood() []int {
+func (s *c15Sim) pendingGood() []int {
 	var res []int
 	for _, id := range s.order {
 		t := s.txs[id]
@@ -342,7 +342,7 @@ func (s *sim) pendingGood() []int {
 	return res
 }
 
-func (s *sim) finalIDs() []int {
+func (s *c15Sim) finalIDs() []int {
 	var res []int
 	for _, id := range s.order {
 		if s.txs[id].final {
@@ -353,7 +353,7 @@ func (s *sim) finalIDs() []int {
 }
 
 // would finalizing these (in order) stay within capacity and agree on asset info?
-func (s *sim) fits(members []int) bool {
+func (s *c15Sim) fits(members []int) bool {
 	tot := map[int]*big.Int{}
 	info := map[int][2]int{}
 	for a, i := range s.info {
@@ -378,7 +378,7 @@ func (s *sim) fits(members []int) bool {
 				info[t.asset] = t.info
 			}
 			tot[t.asset].Add(tot[t.asset], t.amount)
-			if tot[t.asset].Cmp(lgCap(t.asset)) > 0 {
+			if tot[t.asset].Cmp(c15Cap(t.asset)) > 0 {
 				return false
 			}
 		case "submit":
@@ -388,8 +388,8 @@ func (s *sim) fits(members []int) bool {
 	return true
 }
 
-func (s *sim) nearCap(asset int) *big.Int {
-	room := new(big.Int).Sub(lgCap(asset), s.total[asset])
+func (s *c15Sim) nearCap(asset int) *big.Int {
+	room := new(big.Int).Sub(c15Cap(asset), s.total[asset])
 	switch s.r.Intn(6) {
 	case 0:
 		return new(big.Int).Add(room, big.NewInt(int64(s.r.Range(-2, 2))))
@@ -398,28 +398,28 @@ func (s *sim) nearCap(asset int) *big.Int {
 	case 2:
 		return new(big.Int).Sub(room, big.NewInt(int64(s.r.Range(1, 3))))
 	default:
-		return lgUnits(int64(s.r.Range(1, 400)))
+		return c15Units(int64(s.r.Range(1, 400)))
 	}
 }
 
-func (s *sim) someDeposit() *simTx {
+func (s *c15Sim) someDeposit() *c15SimTx {
 	asset := Pick(s.r, []int{1, 2, 2, 3, 4, 4, 5})
-	amt := lgUnits(int64(s.r.Range(1, 300)))
+	amt := c15Units(int64(s.r.Range(1, 300)))
 	if asset == 2 || asset == 3 {
 		amt = s.nearCap(asset)
 	}
 	if amt.Sign() <= 0 {
 		amt = big.NewInt(1)
 	}
-	t := s.deposit(asset, amt, depOpt{validate: true})
-	if s.info[asset] != nil && new(big.Int).Add(s.total[asset], amt).Cmp(lgCap(asset)) >= 0 {
+	t := s.deposit(asset, amt, c15DepOpt{validate: true})
+	if s.info[asset] != nil && new(big.Int).Add(s.total[asset], amt).Cmp(c15Cap(asset)) >= 0 {
 		t.good = false // verifyDepositData rejects
 	}
 	return t
 }
 
-func genLedger(r *Rand, i int, tier string) []string {
-	s := &sim{r: r, txs: map[int]*simTx{}, total: map[int]*big.Int{}, info: map[int]*[2]int{}, uniq: map[[2]int]bool{}}
+func c15GenLedger(r *Rand, i int, tier string) []string {
+	s := c15NewSim(r)
 	s.header()
 	steps := r.Range(5, 12)
 	if tier == "thorough" {
@@ -440,8 +440,8 @@ func genLedger(r *Rand, i int, tier string) []string {
 		case 6:
 			// claim of a finalized submit (building what it needs: XIN funds, a finalized submission)
 			if len(s.liveOuts(1)) == 0 {
-				t := s.deposit(1, lgUnits(int64(r.Range(1, 50))), depOpt{validate: true})
-				s.snapshot([]int{t.id}, 1+r.Intn(lgNodes), s.fits([]int{t.id}), 0)
+				t := s.deposit(1, c15Units(int64(r.Range(1, 50))), c15DepOpt{validate: true})
+				s.snapshot([]int{t.id}, 1+r.Intn(c15Nodes), s.fits([]int{t.id}), 0)
 			}
 			sub := 0
 			for _, id := range s.finalIDs() {
@@ -451,7 +451,7 @@ func genLedger(r *Rand, i int, tier string) []string {
 			}
 			if sub == 0 {
 				if t := s.spend("submit", true, 0, 0, true); t != nil && t.good {
-					s.snapshot([]int{t.id}, 1+r.Intn(lgNodes), s.fits([]int{t.id}), 0)
+					s.snapshot([]int{t.id}, 1+r.Intn(c15Nodes), s.fits([]int{t.id}), 0)
 					sub = t.id
 				}
 			}
@@ -460,9 +460,9 @@ func genLedger(r *Rand, i int, tier string) []string {
 			}
 		case 7:
 			if r.Chance(1, 2) {
-				s.mint(lgUnits(int64(r.Range(1, 90))))
+				s.mint(c15Units(int64(r.Range(1, 90))))
 			} else {
-				s.deposit(1, lgUnits(int64(r.Range(1, 50))), depOpt{validate: true})
+				s.deposit(1, c15Units(int64(r.Range(1, 50))), c15DepOpt{validate: true})
 			}
 		case 8:
 			// validation rejects: bad signature / amounts off by one / custodian signature
@@ -472,7 +472,7 @@ func genLedger(r *Rand, i int, tier string) []string {
 			case 1:
 				s.spend(Pick(r, []string{"transfer", "submit"}), true, int64(Pick(r, []int{-1, 1})), 0, true)
 			default:
-				s.deposit(4, lgUnits(5), depOpt{custBad: true, validate: true})
+				s.deposit(4, c15Units(5), c15DepOpt{custBad: true, validate: true})
 			}
 		case 9, 10, 11, 12:
 			// finalize a batch of pending transactions
@@ -492,7 +492,7 @@ func genLedger(r *Rand, i int, tier string) []string {
 					members[a], members[b] = members[b], members[a]
 				}
 			}
-			s.snapshot(members, 1+r.Intn(lgNodes), s.fits(members), 0)
+			s.snapshot(members, 1+r.Intn(c15Nodes), s.fits(members), 0)
 		case 13:
 			// a snapshot of another node sharing already finalized transactions
 			f := s.finalIDs()
@@ -509,7 +509,7 @@ func genLedger(r *Rand, i int, tier string) []string {
 				members = append(members, p[0])
 			}
 			for rep := r.Range(1, 3); rep > 0; rep-- {
-				s.snapshot(members, 1+r.Intn(lgNodes), s.fits(members), 0)
+				s.snapshot(members, 1+r.Intn(c15Nodes), s.fits(members), 0)
 			}
 		case 14, 15, 16:
 			s.failingBatch()
@@ -547,14 +547,14 @@ func genLedger(r *Rand, i int, tier string) []string {
 	// finalize what is left, one snapshot each
 	for _, id := range s.pendingGood() {
 		if r.Chance(2, 3) {
-			s.snapshot([]int{id}, 1+r.Intn(lgNodes), s.fits([]int{id}), 0)
+			s.snapshot([]int{id}, 1+r.Intn(c15Nodes), s.fits([]int{id}), 0)
 		}
 	}
 	return s.lines
 }
 
 // a batch with a member that fails inside finalization, at a random position
-func (s *sim) failingBatch() {
+func (s *c15Sim) failingBatch() {
 	r := s.r
 	good := s.pendingGood()
 	if len(good) > 3 {
@@ -563,7 +563,7 @@ func (s *sim) failingBatch() {
 	if !s.fits(good) {
 		good = nil
 	}
-	var bad *simTx
+	var bad *c15SimTx
 	topo := 0
 	switch r.Intn(7) {
 	case 0: // ghost key already bound to a finalized transaction
@@ -578,14 +578,14 @@ func (s *sim) failingBatch() {
 		if key == 0 {
 			return
 		}
-		bad = s.deposit(4, lgUnits(3), depOpt{key: key})
+		bad = s.deposit(4, c15Units(3), c15DepOpt{key: key})
 	case 1: // capacity assertion
-		room := new(big.Int).Sub(lgCap(2), s.total[2])
-		bad = s.deposit(2, new(big.Int).Add(room, big.NewInt(int64(r.Range(1, 2)))), depOpt{})
+		room := new(big.Int).Sub(c15Cap(2), s.total[2])
+		bad = s.deposit(2, new(big.Int).Add(room, big.NewInt(int64(r.Range(1, 2)))), c15DepOpt{})
 	case 2: // output type outside the UnspentOutputs table
-		bad = s.deposit(4, lgUnits(2), depOpt{outType: "z"})
+		bad = s.deposit(4, c15Units(2), c15DepOpt{outType: "z"})
 	case 3: // body never persisted
-		bad = s.deposit(4, lgUnits(2), depOpt{noAdmit: true})
+		bad = s.deposit(4, c15Units(2), c15DepOpt{noAdmit: true})
 	case 4: // topology slot taken: fails after every member was finalized inside the transaction
 		if len(s.usedTopo) == 0 || len(good) == 0 {
 			return
@@ -595,7 +595,7 @@ func (s *sim) failingBatch() {
 		if s.info[4] == nil {
 			return
 		}
-		bad = s.deposit(4, lgUnits(2), depOpt{info: &[2]int{4, 204}})
+		bad = s.deposit(4, c15Units(2), c15DepOpt{info: &[2]int{4, 204}})
 	default: // claim whose reference is not finalized
 		var ref int
 		for _, id := range s.order {
@@ -617,20 +617,20 @@ func (s *sim) failingBatch() {
 		pos := r.Intn(len(members) + 1)
 		members = append(members[:pos], append([]int{bad.id}, members[pos:]...)...)
 	}
-	s.snapshot(members, 1+r.Intn(lgNodes), false, topo)
+	s.snapshot(members, 1+r.Intn(c15Nodes), false, topo)
 }
 
 // the shapes behind the C16 findings: validated pending deposits that cannot be finalized together
-func (s *sim) knownShapes() {
+func (s *c15Sim) knownShapes() {
 	r := s.r
 	switch r.Intn(4) {
 	case 0, 1: // two pending deposits, each below the remaining capacity, together above it
 		asset := Pick(r, []int{2, 3})
 		if s.info[asset] == nil {
-			t := s.deposit(asset, lgUnits(int64(r.Range(1, 20))), depOpt{validate: true})
-			s.snapshot([]int{t.id}, 1+r.Intn(lgNodes), s.fits([]int{t.id}), 0)
+			t := s.deposit(asset, c15Units(int64(r.Range(1, 20))), c15DepOpt{validate: true})
+			s.snapshot([]int{t.id}, 1+r.Intn(c15Nodes), s.fits([]int{t.id}), 0)
 		}
-		room := new(big.Int).Sub(lgCap(asset), s.total[asset])
+		room := new(big.Int).Sub(c15Cap(asset), s.total[asset])
 		if room.Cmp(big.NewInt(10)) < 0 {
 			return
 		}
@@ -638,16 +638,16 @@ func (s *sim) knownShapes() {
 		// excess 0: the two deposits land exactly on the capacity, which finalization accepts
 		excess := int64(r.Range(0, 3))
 		b := new(big.Int).Add(new(big.Int).Sub(room, a), big.NewInt(excess))
-		t1 := s.deposit(asset, a, depOpt{validate: true})
-		t2 := s.deposit(asset, b, depOpt{validate: true})
+		t1 := s.deposit(asset, a, c15DepOpt{validate: true})
+		t2 := s.deposit(asset, b, c15DepOpt{validate: true})
 		if r.Bool() {
-			s.snapshot([]int{t1.id, t2.id}, 1+r.Intn(lgNodes), excess == 0, 0)
+			s.snapshot([]int{t1.id, t2.id}, 1+r.Intn(c15Nodes), excess == 0, 0)
 			if excess != 0 {
 				t1.good, t2.good = false, false
 			}
 		} else {
-			s.snapshot([]int{t1.id}, 1+r.Intn(lgNodes), true, 0)
-			s.snapshot([]int{t2.id}, 1+r.Intn(lgNodes), excess == 0, 0)
+			s.snapshot([]int{t1.id}, 1+r.Intn(c15Nodes), true, 0)
+			s.snapshot([]int{t2.id}, 1+r.Intn(c15Nodes), excess == 0, 0)
 			if excess != 0 {
 				t2.good = false
 			}
@@ -656,14 +656,14 @@ func (s *sim) knownShapes() {
 		if s.info[6] != nil {
 			return
 		}
-		t1 := s.deposit(6, lgUnits(5), depOpt{validate: true})
-		t2 := s.deposit(6, lgUnits(7), depOpt{validate: true, info: &[2]int{6, 206}})
+		t1 := s.deposit(6, c15Units(5), c15DepOpt{validate: true})
+		t2 := s.deposit(6, c15Units(7), c15DepOpt{validate: true, info: &[2]int{6, 206}})
 		if r.Bool() {
-			s.snapshot([]int{t1.id, t2.id}, 1+r.Intn(lgNodes), false, 0)
+			s.snapshot([]int{t1.id, t2.id}, 1+r.Intn(c15Nodes), false, 0)
 			t1.good, t2.good = false, false
 		} else {
-			s.snapshot([]int{t1.id}, 1+r.Intn(lgNodes), true, 0)
-			s.snapshot([]int{t2.id}, 1+r.Intn(lgNodes), false, 0)
+			s.snapshot([]int{t1.id}, 1+r.Intn(c15Nodes), true, 0)
+			s.snapshot([]int{t2.id}, 1+r.Intn(c15Nodes), false, 0)
 			t2.good = false
 		}
 	default: // first deposit of a capped asset nobody deposited before, above the capacity
@@ -671,8 +671,8 @@ func (s *sim) knownShapes() {
 		if s.info[asset] != nil {
 			return
 		}
-		t := s.deposit(asset, new(big.Int).Add(lgCap(asset), lgUnits(int64(r.Range(1, 500)))), depOpt{validate: true})
-		s.snapshot([]int{t.id}, 1+r.Intn(lgNodes), false, 0)
+		t := s.deposit(asset, new(big.Int).Add(c15Cap(asset), c15Units(int64(r.Range(1, 500)))), c15DepOpt{validate: true})
+		s.snapshot([]int{t.id}, 1+r.Intn(c15Nodes), false, 0)
 		t.good = false
 	}
 }
@@ -685,6 +685,44 @@ func init() {
 		"reference), transactions shared by 2..4 snapshots, double spends, bad signatures; full database dump and per-asset " +
 		"supply after every snapshot; non-trivial = a WriteSnapshot call or a supply observation; distinct = distinct op line"
 	for _, v := range [][2]string{{"ledger", "C15"}, {"ledgerc16", "C16"}, {"ledgerc17", "C17"}} {
-		Register(&Subsystem{Name: v[0], Rule: rule, Gen: genLedger, Exec: execLedger(v[1])})
+		Register(&Subsystem{Name: v[0], Rule: rule, Gen: c15GenLedger, Exec: c15ExecLedger(v[1]), Corpus: c15LedgerCorpus()})
 	}
+}
+
+func c15NewSim(r *Rand) *c15Sim {
+	return &c15Sim{r: r, txs: map[int]*c15SimTx{}, total: map[int]*big.Int{}, info: map[int]*[2]int{}, uniq: map[[2]int]bool{}}
+}
+
+// the minimised witnesses of the C16 findings (and a shared-transaction history), always run first
+func c15LedgerCorpus() [][]string {
+	var out [][]string
+	{ // two BTC deposits of 2000 against a capacity of 2500, after a first small one created the asset info
+		s := c15NewSim(NewRand(11))
+		s.header()
+		t0 := s.deposit(2, c15Units(1), c15DepOpt{validate: true})
+		s.snapshot([]int{t0.id}, 1, true, 0)
+		t1 := s.deposit(2, c15Units(2000), c15DepOpt{validate: true})
+		t2 := s.deposit(2, c15Units(2000), c15DepOpt{validate: true})
+		s.snapshot([]int{t1.id}, 2, true, 0)
+		s.snapshot([]int{t2.id}, 3, false, 0)
+		s.snapshot([]int{t0.id, t1.id}, 4, true, 0) // shared by a second snapshot
+		s.snapshot([]int{t0.id, t1.id}, 5, true, 0) // and a third
+		out = append(out, s.lines)
+	}
+	{ // first deposit of an unseen capped asset above the capacity
+		s := c15NewSim(NewRand(12))
+		s.header()
+		t := s.deposit(2, c15Units(3000), c15DepOpt{validate: true})
+		s.snapshot([]int{t.id}, 1, false, 0)
+		out = append(out, s.lines)
+	}
+	{ // two pending first deposits with different asset keys, one snapshot
+		s := c15NewSim(NewRand(13))
+		s.header()
+		t1 := s.deposit(6, c15Units(5), c15DepOpt{validate: true})
+		t2 := s.deposit(6, c15Units(7), c15DepOpt{validate: true, info: &[2]int{6, 206}})
+		s.snapshot([]int{t1.id, t2.id}, 1, false, 0)
+		out = append(out, s.lines)
+	}
+	return out
 }
